@@ -78,11 +78,27 @@ def run(ctx):
 def eviction(ctx, d1, f):
     cons = f.qualname
     # the guarded eviction block: `if len(C) > N:` / `if C.__len__() > N:`
+    # (or, with the test the other way round: `if len(C) <= N: return` followed by the eviction / its else branch)
     blocks = []
     for n in walk_no_nested(f.node):
-        if isinstance(n, ast.If) and isinstance(n.test, ast.Compare) and isinstance(n.test.ops[0], (ast.Gt, ast.GtE)) \
+        if isinstance(n, ast.If) and isinstance(n.test, ast.Compare) and len(n.test.ops) == 1 \
                 and ('len(' in src(n.test.left) or '__len__' in src(n.test.left)):
-            blocks.append(n)
+            if isinstance(n.test.ops[0], (ast.Gt, ast.GtE)):
+                blocks.append(n)
+            elif isinstance(n.test.ops[0], (ast.Lt, ast.LtE)):
+                from ..normalize import falls_through
+                region = list(n.orelse)
+                if not falls_through(n.body):
+                    par_ = getattr(n, '_parent', None)
+                    for fld in ('body', 'orelse', 'finalbody'):
+                        blk_ = getattr(par_, fld, None)
+                        if isinstance(blk_, list) and any(x is n for x in blk_):
+                            region += blk_[[x is n for x in blk_].index(True) + 1:]
+                if region:
+                    syn = ast.If(test=n.test, body=region, orelse=[])
+                    ast.copy_location(syn, n)
+                    syn._parent = getattr(n, '_parent', None)
+                    blocks.append(syn)
     if not blocks:
         raise AnalysisError('%s: eviction block not found' % cons)
     for b in blocks:
